@@ -1,4 +1,5 @@
 import Proofs.C09
+import Proofs.TieCmp
 #print axioms PV.Proofs.C09.declared_isolation
 #print axioms PV.Proofs.C09.declared_reduction
 #print axioms PV.Proofs.C09.seed_only
@@ -12,3 +13,12 @@ import Proofs.C09
 #print axioms PV.Proofs.C09.noninterference_gen
 #print axioms PV.Proofs.C09.noninterference
 #print axioms PV.Proofs.C09.cli_deterministic
+#print axioms PV.Proofs.TieCmp.packed_partial_cmp_tie
+#print axioms PV.Proofs.TieCmp.packed_cmp_tie
+#print axioms PV.Proofs.TieCmp.potential_partial_cmp_tie
+#print axioms PV.Proofs.TieCmp.potential_cmp_tie
+#print axioms PV.Proofs.TieCmp.packed_eq_tie
+#print axioms PV.Proofs.TieCmp.potential_eq_tie
+#print axioms PV.Proofs.TieCmp.maxRight_eq_maxByCmp
+#print axioms PV.Proofs.TieCmp.maxRight_packed
+#print axioms PV.Proofs.TieCmp.maxRight_potential
